@@ -86,6 +86,19 @@ static int case_shutdown_bound() {      // 0 ok, 1 plain sleep uncapped, 2 wait-
     return 0;
 }
 static bool is_known(const char* cls) { const char* k = getenv("VERIF_KNOWN"); return k && strstr(k, cls); }
+// an interrupt that arrives while the target is READY but NOT in a sleep or yield (here: created, not yet run) cut no sleep short:
+// the target's next sleep must not report it
+static volatile int f_phase = 0; static int f_r, f_e; static uint64_t f_us;
+static void* f_worker(void*) { uint64_t t0 = photon::__update_now(); errno = 0; f_r = photon::thread_usleep(30 * 1000); f_e = errno; f_us = photon::__update_now() - t0; f_phase = 1; return 0; }
+static bool case_stray_interrupt() {
+    photon::vcpu_init(); f_phase = 0;
+    auto th = photon::thread_create(&f_worker, nullptr);
+    photon::thread_interrupt(th, EBUSY);           // the worker has not run yet: it is READY, not sleeping
+    while (f_phase != 1) photon::thread_usleep(1000);
+    photon::vcpu_fini();
+    if (f_r != 0) { why = "thread_usleep(30 ms) slept " + std::to_string(f_us) + " us and returned -1/errno " + std::to_string(f_e) + ": the reason of an interrupt sent BEFORE the sleep began (the thread was READY, not sleeping) was delivered to it"; return false; }
+    return true;
+}
 static bool case_yield_then_sleep() {
     y_phase = 0;
     photon::vcpu_init();
@@ -108,6 +121,7 @@ int main(int argc, char** argv) {
     if (argc >= 3 && !strcmp(argv[1], "--replay")) {
         std::ifstream f(argv[2]); std::stringstream ss; ss << f.rdbuf(); std::string j = ss.str();
         if (j.find("shutdown") != std::string::npos || j.find("usleep/waitq") != std::string::npos) { int sb = case_shutdown_bound(); printf("%s %s\n", sb ? "REPRODUCED" : "NOT-REPRODUCED", why.c_str()); return 0; }
+        if (j.find("stray_interrupt") != std::string::npos || j.find("prepare_usleep") != std::string::npos) { bool ok = case_stray_interrupt(); printf("%s %s\n", ok ? "NOT-REPRODUCED" : "REPRODUCED", why.c_str()); return 0; }
         if (j.find("double_interrupt") != std::string::npos) { bool ok = case_double_interrupt(); printf("%s %s\n", ok ? "NOT-REPRODUCED" : "REPRODUCED", why.c_str()); return 0; }
         if (j.find("yield") != std::string::npos) { bool ok = case_yield_then_sleep(); printf("%s %s\n", ok ? "NOT-REPRODUCED" : "REPRODUCED", why.c_str()); return 0; }
         auto ts = jarr(j, "in_ts"); int n = (int)jnum(j, "in_n"); int op = j.find("push_n") != std::string::npos ? 0 : (j.find("pop_front_n") != std::string::npos ? 1 : 2);
@@ -122,6 +136,7 @@ int main(int argc, char** argv) {
       if (sb == 1) { printf("CEX shutdown {\"kind\": \"shutdown_plain\", \"why\": \"%s\"}\n", why.c_str()); return 3; }
       if (sb == 2) { if (is_known("waitq_shutdown_uncapped")) printf("KNOWN waitq_shutdown_uncapped {\"kind\": \"shutdown_waitq\", \"why\": \"%s\"}\n", why.c_str());
                      else { printf("CEX waitq_shutdown_uncapped {\"kind\": \"shutdown_waitq\", \"why\": \"%s\"}\n", why.c_str()); return 3; } } }
+    ++cases; if (!case_stray_interrupt()) { printf("CEX stray_interrupt {\"kind\": \"stray_interrupt\", \"why\": \"%s\"}\n", why.c_str()); return 3; }
     ++cases; if (!case_double_interrupt()) { printf("CEX interrupt {\"kind\": \"double_interrupt\", \"why\": \"%s\"}\n", why.c_str()); return 3; }
     ++cases; if (!case_yield_then_sleep()) { printf("CEX yield {\"kind\": \"yield_then_sleep\", \"why\": \"%s\"}\n", why.c_str()); return 3; }
     const char* sd = getenv("VERIF_SEED"); rs_ = 0x9E3779B97F4A7C15ull ^ (sd ? strtoull(sd, 0, 10) * 0x100000001B3ull : 1);
